@@ -416,6 +416,8 @@ class Interp(Evaluator):
             return self.env[key]
         base = self.ev(e.value)
         from .minieval import Obj
+        if isinstance(base, BV) and e.attr == 'nbits':
+            return base.w
         if isinstance(base, Obj):
             if e.attr in base.fields:
                 return base.fields[e.attr]
@@ -628,12 +630,34 @@ class Interp(Evaluator):
 
 
 def _as_load(t):
-    import copy
-    c = copy.deepcopy(t)
-    for n in ast.walk(c):
-        if hasattr(n, 'ctx'):
-            n.ctx = ast.Load()
-    return c
+    """the target expression in Load context (children shared; never deep-copies the tree through parent links)"""
+    if isinstance(t, ast.Name):
+        n = ast.Name(id=t.id, ctx=ast.Load())
+    elif isinstance(t, ast.Subscript):
+        n = ast.Subscript(value=t.value, slice=t.slice, ctx=ast.Load())
+    elif isinstance(t, ast.Attribute):
+        n = ast.Attribute(value=t.value, attr=t.attr, ctx=ast.Load())
+    else:
+        raise AnalysisError(f"augmented assignment target outside the abstract domain: {norm(t)}")
+    return ast.copy_location(n, t)
+
+
+def copy_expr(e, mapping=None):
+    """structural copy of an expression (fields only -- parent links are not followed), with Load-context Names replaced per
+    `mapping` name -> expression"""
+    if isinstance(e, ast.Name) and mapping and e.id in mapping and isinstance(e.ctx, ast.Load):
+        return copy_expr(mapping[e.id])
+    if isinstance(e, ast.AST):
+        kw = {}
+        for f in e._fields:
+            v = getattr(e, f, None)
+            if isinstance(v, list):
+                kw[f] = [copy_expr(x, mapping) for x in v]
+            else:
+                kw[f] = copy_expr(v, mapping)
+        n = type(e)(**kw)
+        return ast.copy_location(n, e) if hasattr(e, 'lineno') else n
+    return e
 
 
 # ---------------------------------------------------------------------------
